@@ -136,7 +136,7 @@ def check(ctx: Ctx):
                       "the capacity, exactly-once and must-host constraints only exist inside the linear program: a shortcut that returns without solving (e.g. when every "
                       "computation is pinned) returns a mapping nobody checked against the capacities")
     if n_solve < 4:
-        raise AnalysisError(f"R-SOLVED: only {n_solve} solving functions found in the distribution modules (expected >= 4)")
+        ctx.defer(f"R-SOLVED: only {n_solve} solving functions found in the distribution modules (expected >= 4)")
     bh = repo.func("pydcop.dcop.yamldcop", "_build_dist_hints")
     mk = [c for c in ast.walk(bh.node) if isinstance(c, ast.Call) and call_name(c) == "DistributionHints"]
     ok = len(mk) == 1 and len(mk[0].args) >= 1
